@@ -157,7 +157,7 @@ def gen_project(rng, n_units=None, wp=True, inline=0.25, headers=True, weird_nam
         langs[p] = lang
     tree = {}
     hdr_atoms = []
-    if headers and rng.chance(0.7):
+    if headers and rng.chance(0.7 if headers is True else headers):
         # a finding located in a header shared by several units: the duplicate filters' reason to exist
         for _ in range(rng.randint(1, 2)):
             n = ctr.next()
@@ -263,10 +263,10 @@ def flatten_opts(opts):
 SHIFTS = [1, 2, 3, 7, 10, 255, 256, 257, 512, 65536]
 
 
-def gen_edit(rng, tree, units, langs, ctr_start=1000):
+def gen_edit(rng, tree, units, langs, ctr_start=1000, kinds=None):
     """Returns (description, {path: new_chunks|None}, new_units, new_langs). tree values are chunk lists."""
-    kinds = ["token", "lineshift", "colshift", "comment", "header", "add", "remove", "move", "swap", "touch", "drop_include",
-             "inline_add"]
+    kinds = kinds or ["token", "token", "lineshift", "colshift", "comment", "header", "add", "remove", "move", "swap", "touch",
+                      "drop_include", "drop_include", "inline_add", "inline_hdr"]
     for _attempt in range(10):
         k = rng.choice(kinds)
         files = [p for p in tree if p in units]
@@ -305,6 +305,14 @@ def gen_edit(rng, tree, units, langs, ctr_start=1000):
                 continue
             ch[i] = "// cppcheck-suppress %s\n%s" % (rng.choice(["zerodiv", "arrayIndexOutOfBounds", "nullPointer", "uninitvar", "unreadVariable"]), ch[i])
             return ("add inline suppression in %s" % p, {p: ch}, units, langs)
+        if k == "inline_hdr" and "shared.h" in tree:
+            h = list(tree["shared.h"])
+            idx = [i for i, c in enumerate(h) if c.startswith("static inline")]
+            if not idx:
+                continue
+            i = rng.choice(idx)
+            h[i] = "// cppcheck-suppress %s\n%s" % (rng.choice(["zerodiv", "nullPointer", "unreadVariable"]), h[i])
+            return ("header inline suppression added", {"shared.h": h}, units, langs)
         if k == "header" and "shared.h" in tree:
             h = list(tree["shared.h"])
             if rng.chance(0.5):
@@ -349,7 +357,7 @@ def gen_edit(rng, tree, units, langs, ctr_start=1000):
                 continue
             # only safe if the unit does not use anything from the header
             body = "\n".join(c for i, c in enumerate(ch) if i not in idx)
-            if "HDIV" in body or "wp" in body:
+            if langs[p] != "c" and ("HDIV" in body or "wp" in body):
                 continue
             del ch[idx[0]]
             return ("drop #include of shared.h in %s" % p, {p: ch}, units, langs)
